@@ -46,7 +46,7 @@ int main() {
             while (ss >> x) keys[i].push_back(x);
         }
         vsched::Scheduler S;
-        S.maxSteps = 200000;
+        S.maxSteps = 50000;
         {
             std::stringstream ss(parts[1 + k]);
             std::string w;
